@@ -24,7 +24,7 @@ def term(t):
     if k == "index":
         return f"{term(t['of'])}[{t['key']!r}]"
     if k == "call":
-        return f"{term(t['of'])}.{t['name']}({','.join(map(repr, t['args']))})"
+        return f"{term(t['of'])}.{t['name']}({','.join(list(map(repr, t['args'])) + [f'{k}={v!r}' for k, v in t.get('kwargs', {}).items()])})"
     return str(t)
 
 
